@@ -272,6 +272,8 @@ FIXED = [
     'Struct("b"/Bitwise(Struct("a"/Octet, "w"/Bytewise(Struct("p"/Flag, "q"/Int16sl, "r"/Bytes(2))))), "t"/Byte)',
     'Struct("b"/BitStruct("a"/Octet, "w"/Bytewise(Bytes(2)), "z"/Octet), "t"/Byte)',
     'Struct("b"/BitStruct("a"/Octet, "w"/Bytewise(Flag), "p"/Bytewise(Padding(1)), "z"/Octet), "t"/Byte)',
+    'Struct("flags"/FlagsEnum(Int16ub, ready=1, error=4), "next"/Byte)',
+    'Struct("flags"/FlagsEnum(Int32ub, lo=1, mid=0x100), "next"/Byte)',
     # identifiers are the member names as written (case, digits, underscores), also where a condition refers to them
     'Struct("Len"/Byte, "len"/Byte, "hasTail"/Byte, "Tail"/If(this.hasTail > 0, Byte), "X_1"/Bytes(this.Len % 4))',
     'Struct("Hdr"/Struct("Kind"/Byte, "kind"/Byte), "BODY"/Array(2, Struct("A"/Byte)), "z"/Byte)',
@@ -286,9 +288,16 @@ FIXED_VALUES = {
     15: dict(s=b'ab', t=0, u=7), 16: dict(s=b'ab\x00', u=7), 17: dict(b=dict(a=9, c=1), t=3), 18: dict(b=dict(a=17, f=True, c=200), t=3),
     19: dict(b=dict(a=9, c=3, w=True, x=513), t=3), 20: dict(b=dict(a=9, f=1.5, g=-2), t=3), 21: dict(b=dict(a=9, w=dict(p=True, q=-2, r=b'xy')), t=3),
     22: dict(b=dict(a=1, w=b'xy', z=2), t=3), 23: dict(b=dict(a=1, w=True, z=2), t=3),
-    24: dict(Len=2, len=7, hasTail=1, Tail=9, X_1=b'ab'), 25: dict(Hdr=dict(Kind=1, kind=2), BODY=[dict(A=3), dict(A=4)], z=5),
+    24: dict(flags=dict(ready=True, error=False), next=7), 25: dict(flags=dict(lo=True, mid=True), next=7),
+    26: dict(Len=2, len=7, hasTail=1, Tail=9, X_1=b'ab'), 27: dict(Hdr=dict(Kind=1, kind=2), BODY=[dict(A=3), dict(A=4)], z=5),
 }
 
+
+# exported, but with helper types used from a bit-sized context, which my reading of the dialect cannot read back (DESIGN 0.8): only the emitted
+# schema is compared with the model's
+EMIT_ONLY = ['Struct("b"/BitStruct("a"/Nibble, "fl"/Array(4, "f"/Flag)), "t"/Byte)',
+             'Struct("b"/Bitwise(Array(2, "item"/Struct("v"/BitsInteger(7), "ok"/Flag))), "t"/Byte)',
+             'Struct("b"/BitStruct("a"/Nibble, "p"/Padded(4, "f"/Flag)), "t"/Byte)']
 
 NOT_EXPORTABLE = ['Struct("a"/Aligned(4, Byte))', 'Struct("s"/Switch(this.n, {1: Byte}))', 'Struct("d"/Default(Byte, 1), "c"/Computed(1))',
                   'Struct("s"/Select(Byte, Int16ub))', 'Struct("u"/Union(0, "a"/Byte))', 'Struct("t"/Tell)', 'Struct("z"/ZigZag)',
@@ -300,7 +309,7 @@ def run(tier, seed):
     rng = C.rng_for(seed, 'C19')
     quick = tier == 'quick'
     nexp = nrej = 0
-    cases = [dict(src=src, op='ksy_emit') for src in NOT_EXPORTABLE]
+    cases = [dict(src=src, op='ksy_emit') for src in NOT_EXPORTABLE + EMIT_ONLY]
     for i, src in enumerate(FIXED):
         c, schema, why = exported(src)
         cases.append(dict(src=src, op='ksy_emit'))          # the model exports every one of these: a refusal or a crash of export_ksy disagrees with it
